@@ -159,6 +159,7 @@ struct Faulty<'a> {
     calls: usize,
     fail_at: Option<usize>,
     eintr_at: Option<usize>,
+    kind: std::io::ErrorKind,
 }
 
 impl<'a> Read for Faulty<'a> {
@@ -166,7 +167,7 @@ impl<'a> Read for Faulty<'a> {
         let i = self.calls;
         self.calls += 1;
         if Some(i) == self.fail_at {
-            return Err(std::io::Error::new(std::io::ErrorKind::Other, "injected I/O error"));
+            return Err(std::io::Error::new(self.kind, "injected I/O error"));
         }
         if Some(i) == self.eintr_at {
             return Err(std::io::Error::new(std::io::ErrorKind::Interrupted, "injected EINTR"));
@@ -179,9 +180,13 @@ impl<'a> Read for Faulty<'a> {
 }
 
 fn read_faulty(text: &[u8], fail_at: Option<usize>, eintr_at: Option<usize>, cap: usize) -> (Result<Vec<Record>, String>, usize) {
+    read_faulty_kind(text, fail_at, eintr_at, cap, std::io::ErrorKind::Other)
+}
+
+fn read_faulty_kind(text: &[u8], fail_at: Option<usize>, eintr_at: Option<usize>, cap: usize, kind: std::io::ErrorKind) -> (Result<Vec<Record>, String>, usize) {
     let mut calls = 0;
     let r = {
-        let f = Faulty { data: text, pos: 0, calls: 0, fail_at, eintr_at };
+        let f = Faulty { data: text, pos: 0, calls: 0, fail_at, eintr_at, kind };
         let mut br = BufReader::with_capacity(cap, f);
         let r = ScanIndex::from_reader(&mut br).map(|v| v.iter().map(real_record).collect()).map_err(|e| format!("{:?}", e.kind()));
         calls += br.get_ref().calls;
@@ -203,6 +208,16 @@ fn check_faults(t: &mut Tally, text: &str) {
         t.validated += 1;
         t.transitions += 1;
         let case = || json!({"text": text, "buffer": cap, "hard_error_at_read_call": j});
+        // every kind of hard error (only EINTR may be retried); the reader keeps delivering data afterwards
+        for kind in [std::io::ErrorKind::UnexpectedEof, std::io::ErrorKind::InvalidData, std::io::ErrorKind::WouldBlock, std::io::ErrorKind::TimedOut, std::io::ErrorKind::BrokenPipe] {
+            t.evals += 1;
+            t.validated += 1;
+            match guard(|| read_faulty_kind(text.as_bytes(), Some(j), None, cap, kind).0) {
+                Ok(Err(_)) => t.outcome("fault/io-error-propagated"),
+                Ok(Ok(g)) => t.violation(Violation::new("fault", json!({"text": text, "buffer": cap, "hard_error_at_read_call": j, "kind": format!("{:?}", kind)}), json!("Err"), json!(format!("Ok, {} records", g.len())), "an I/O error from the reader (of any kind other than EINTR) must fail the read")),
+                Err(m) => t.violation(Violation::new("fault", json!({"text": text, "kind": format!("{:?}", kind)}), json!("Err"), json!(format!("panic: {}", m)), "reader panicked")),
+            }
+        }
         match guard(|| read_faulty(text.as_bytes(), Some(j), None, cap).0) {
             Ok(Err(_)) => t.outcome("fault/io-error-propagated"),
             Ok(Ok(g)) => t.violation(Violation::new("fault", case(), json!("Err"), json!(format!("Ok, {} records", g.len())), "an I/O error from the reader must fail the read, never yield a partial list")),
@@ -300,5 +315,40 @@ fn main() {
         }
         t.sample(run.seed, s.iter().fold(1u64, |a, x| a * 31 + *x as u64), || json!({"text": text}));
     });
+    // scale: hundreds of records, hundreds of list items, lines longer than the reader's buffer
+    {
+        let mut t = Tally::new();
+        for nrec in [9usize, 16, 17, 64, 300] {
+            let mut text = String::new();
+            for r in 0..nrec {
+                text.push_str(&format!("PKGNAME=pkg{}-{}.{}nb{}\n", r, r % 7, r % 3, r % 5));
+                if r % 2 == 0 {
+                    text.push_str(&format!("MAINTAINER=m{}@example.org\n", r));
+                }
+                if r % 3 == 1 {
+                    let deps: Vec<String> = (0..(r % 40 * 5)).map(|d| format!("dep{}-[0-9]*:../../cat{}/dep{}", d, d % 9, d)).collect();
+                    text.push_str(&format!("ALL_DEPENDS= {} \n", deps.join("  ")));
+                }
+                if r % 5 == 2 {
+                    text.push_str(&format!("PKG_LOCATION=cat{}/pkg{}\nCATEGORIES=c{}\n", r % 9, r, r));
+                }
+                if r % 4 == 3 {
+                    let sd: Vec<String> = (0..(r % 50)).map(|d| format!("../../mk/file{}.mk", d)).collect();
+                    text.push_str(&format!("SCAN_DEPENDS={}\nMULTI_VERSION= A={} B={}\n", sd.join(" "), r, r + 1));
+                }
+            }
+            t.states += 1;
+            t.transitions += nrec as u64;
+            check_text(&mut t, &text);
+            // one invalid dependency in the last record must fail the whole read
+            let bad = format!("{}ALL_DEPENDS=ok>=1:../../c/p broken\n", text);
+            check_text(&mut t, &bad);
+            if nrec <= 17 {
+                check_faults(&mut t, &text);
+            }
+        }
+        run.bound("scale: inputs of 9..300 records with up to 195 dependencies and 49 scan files per record; long lines through a 16-byte buffered faulty reader");
+        run.merge(t);
+    }
     run.finish();
 }
